@@ -331,9 +331,9 @@ func init() {
 	fw.Register(&fw.Prop{
 		ID:    "C04",
 		Level: "model_checking",
-		Rule: "all module programs (up to isomorphism of the rooted graph) that build <=3 (quick) / <=4 (thorough) container nodes over kinds {list, dict(value edges), dict(key edges via tuple), set(via tuple), tuple, struct, function with defaults, closure, bound method, host list passed through predeclared} with every edge set (<=2 kids per node; sharing, self loops, cycles), only the root stored in a global, x {module succeeds, module fails after construction}; " +
+		Rule: "all module programs (up to isomorphism of the rooted graph) that build <=3 (quick) / <=4 (thorough) container nodes over kinds {list, dict(value edges), dict(key edges via tuple), set(via tuple), tuple, struct, function with defaults, closure, bound method, host list passed through predeclared; in graphs of <= 2 nodes also never-populated and cleared containers, containers built from frozen host values (hfs + struct(..), hft + (..,), hfl + [..], hfd | {..}) and a dict with 12 entries in one bucket chain} with every edge set (<=2 kids per node; sharing, self loops, cycles), only the root stored in a global, x {module succeeds, module fails after construction}; " +
 			"after ExecFile every node (reachable or not) receives every operation: every method in AttrNames() x argument tuples from a pool, every augmented/index/field assignment executed by helper functions of the same module and of a second module that loaded the value, every exported Go method found by reflection x pooled arguments, every universe built-in, every binary/unary operator, calls of stored functions and bound methods. " +
-			"A (operation, arguments) pair counts as a mutator iff it changes a fresh mutable twin of identical content. Oracle: on reachable nodes mutators return an error and NO operation changes the serialisation of the graph reachable from the globals; on unreachable nodes mutators succeed; values created afterwards are mutable; predeclared and Universe keep keys and value identities. " +
+			"A (operation, arguments) pair counts as a mutator iff it changes a fresh mutable twin of identical content. Oracle: on reachable nodes mutators return an error and NO operation changes the serialisation of the graph reachable from the globals; on unreachable nodes mutators succeed; values created afterwards are mutable; every container that an operation returns and that is not part of the graph is mutated through the Go API without changing the frozen graph; every list/dict/set reachable from the globals through the Go API refuses Append/SetIndex/Clear/SetKey/Insert; predeclared and Universe keep keys and value identities; early-freeze family: the host freezes a closure (7 shapes) before/after/between the assignments of the variable it captures (4 kinds of value, module succeeds/fails): at the end of the module everything reachable refuses mutation. " +
 			"non-trivial = mutator attempts (pairs shown to change a mutable twin)",
 		Run: run, Worker: worker, Replay: replay,
 		Assumptions: []string{
